@@ -3,10 +3,12 @@ package main
 import (
 	"encoding/json"
 	"fmt"
+	"time"
 
 	"github.com/trustbloc/sidetree-core-go/pkg/api/operation"
 	"github.com/trustbloc/sidetree-core-go/pkg/api/protocol"
 	"github.com/trustbloc/sidetree-core-go/pkg/api/txn"
+	"github.com/trustbloc/sidetree-core-go/pkg/observer"
 	"github.com/trustbloc/sidetree-core-go/pkg/processor"
 
 	"verifharness/hx"
@@ -487,7 +489,19 @@ func chainsThroughBatchFiles(c *hx.Ctx, nPairs int) {
 			}
 			t := txn.SidetreeTxn{Namespace: hx.Namespace, AnchorString: info.AnchorString, TransactionTime: uint64(1000 + 10*round), TransactionNumber: uint64(round % 4),
 				ProtocolVersion: p.GenesisTime, CanonicalReference: fmt.Sprintf("ref%d", round)}
-			if _, err := v.TxnProc.Process(t); err != nil {
+			if i%3 == 0 {
+				// the transaction reaches the node through the REAL observer, in one ledger notification with an unreadable
+				// transaction in front of it (seeded C11-19: a bad neighbour must not keep the anchored request from taking effect)
+				junk := txn.SidetreeTxn{Namespace: hx.Namespace, AnchorString: []string{"garbage", "3.EiMissingCoreIndexFilexxxxxxxxxxxxxxxxxxxxxxxxx"}[round%2], TransactionTime: t.TransactionTime - 1,
+					TransactionNumber: 9, ProtocolVersion: p.GenesisTime, CanonicalReference: fmt.Sprintf("junk%d", round)}
+				ok, late := observeNotification(pc, []txn.SidetreeTxn{junk, t})
+				if late {
+					c.Inconclusive("observer did not finish a notification within 3 minutes")
+					return
+				}
+				_ = ok
+				c.Count("batch_file_rounds_through_the_observer_behind_an_unreadable_transaction")
+			} else if _, err := v.TxnProc.Process(t); err != nil {
 				c.Violation(fmt.Sprintf(c.ID+" anchored batch of client-built requests %v (included %v) cannot be processed: %v", kinds, includedKinds, err), replay)
 				return
 			}
@@ -539,4 +553,25 @@ func copyThenChange(r *hx.Rng) map[string]interface{} {
 		}
 	}
 	return patchJSON(ops...)
+}
+
+// observeNotification hands one ledger notification to a fresh REAL observer over the protocol client and waits until the
+// observer has taken the next (empty) notification, i.e. has finished with this one. late = wall-clock watchdog fired.
+func observeNotification(pc protocol.Client, batch []txn.SidetreeTxn) (ok bool, late bool) {
+	ledger := &chanLedger{ch: make(chan []txn.SidetreeTxn)}
+	obs := observer.New(&observer.Providers{Ledger: ledger, ProtocolClientProvider: &hx.ClientProvider{C: pc}})
+	obs.Start()
+	defer obs.Stop()
+	done := make(chan struct{})
+	go func() {
+		ledger.ch <- batch
+		ledger.ch <- nil
+		close(done)
+	}()
+	select {
+	case <-done:
+		return true, false
+	case <-time.After(3 * time.Minute):
+		return false, true
+	}
 }
